@@ -145,6 +145,7 @@ type FsOp struct {
 	Path2  string `json:"path2,omitempty"`
 	Data   string `json:"data,omitempty"`
 	Big    int    `json:"big,omitempty"` // > 0: the content is Data+"|" repeated up to this many bytes (sizes past every threshold)
+	Bin    bool   `json:"bin,omitempty"`  // with Big: Data followed by the bytes 0xFF, 0xFE, ... 0x00 repeated (every byte value, invalid UTF-8)
 	Zero   bool   `json:"zero,omitempty"` // with Big: the content is Data followed by zero bytes up to Big bytes in all (all-zero blocks, a zero tail ending on a block boundary)
 	Chunks []int  `json:"chunks,omitempty"` // Writer: chunk lengths (0 allowed); Reader: buffer sizes
 	View   int    `json:"view,omitempty"`   // index into the views created so far (0 = root)
@@ -155,6 +156,13 @@ type FsOp struct {
 func (o FsOp) Content() []byte {
 	if o.Big <= 0 {
 		return []byte(o.Data)
+	}
+	if o.Bin {
+		out := append([]byte(o.Data), make([]byte, max(0, o.Big-len(o.Data)))...)
+		for i := len(o.Data); i < len(out); i++ {
+			out[i] = byte(255 - (i-len(o.Data))%256)
+		}
+		return out
 	}
 	if o.Zero {
 		// Big bytes in all: the data, then zeros up to a whole number of 4096-byte blocks
@@ -178,6 +186,9 @@ func (o FsOp) String() string {
 			s += fmt.Sprintf("x%dB", o.Big)
 			if o.Zero {
 				s += "(zeros)"
+			}
+			if o.Bin {
+				s += "(every byte value)"
 			}
 		}
 	}
